@@ -34,7 +34,7 @@ func (c *Ctx) Sim(name string, op Op, env *Env) *Outcome {
 	if c.keepTrace {
 		c.lastTrace = out.Trace
 	}
-	if out.BubbleErr != "" && !out.Hang && len(out.Leaks) == 0 && len(out.Panics) == 0 {
+	if out.BubbleErr != "" && !env.AllowBubbleErr && !out.Hang && len(out.Leaks) == 0 && len(out.Panics) == 0 {
 		// the bubble failed for a reason the simulator does not understand: never a verdict
 		panic(fmt.Sprintf("bubble error without hang/leak/panic: %s", out.BubbleErr))
 	}
